@@ -79,8 +79,10 @@ pub fn in_domain_margin(op: Op, re: &[f64], m: f64) -> bool {
         Asin | Acos | Atanh => x.abs() < 1.0 - m,
         Acosh => x > 1.0 + m,
         Tan => x.cos().abs() > m,
-        Powi(n) => n >= 0 || x.abs() > m,
-        Powf(_) | Powd => x > m,
+        Powi(n) => (n >= 0 || x.abs() > m) && (x == 0.0 || (n as f64 * x.abs().ln()).abs() < 80.0),
+        // powers: positive base, and a result well inside the float range (|p ln x| moderate)
+        Powf(p) => x > m && (p * x.ln()).abs() < 80.0,
+        Powd => x > m && (re[1] * x.ln()).abs() < 80.0,
         Div | DivA | DivRef => re[1].abs() > m,
         DivF(f) | DivAF(f) => f != 0.0,
         Atan2 => re[0].abs() > m && re[1].abs() > m,
